@@ -1,5 +1,5 @@
 # Wording of MANIFEST.json per property.
-HOOK_COMMITS = ['7bf3a7c', 'e0ec659', '7eca066', '5972264', '8be5f35']
+HOOK_COMMITS = ['7bf3a7c', 'e0ec659', '7eca066', '5972264', '8be5f35', '681a228']
 NOT_YET = {}
 TEXT = {
  'C19': dict(
@@ -52,14 +52,18 @@ TEXT = {
   technique='Coq proof (compaction arithmetic; takeSnapshot characterisation) + exhaustive differential sweep of compactLogsWithTrailing + differential node sequences with snapshots + monitored snapshot/configuration race',
  ),
  'C04': dict(
-  level='Machine-checked theorems (Coq) over the model of appendEntries for EVERY follower state (cached last index bounding the store) and EVERY request with consecutive indices, '
-        'every store-failure pattern: nothing at or below prev changes; an existing entry is removed or replaced only at or above the first index whose stored term differs from the term sent; '
-        'on success every index sent holds the entry sent or the stored duplicate with the same term, and the previous entry matched (C04_append_entries, C04_success_prev_matched). '
-        'Tie: the bounded enumeration the property asks for (follower log x leader log x prev x batch x commit, duplicates, snapshot boundary, failures, crash cuts) on real servers through processRPC, '
-        'diffed against the extracted model; handler monitors on the implementation. Partial: the cross-server statement (pairwise log matching at every instant of every run) is checked by the cluster '
-        'monitors on real histories; its proof over all runs (prefix-of-leader invariant) is not finished in this round.',
-  note='Trusted: Coq kernel; harness stores; request entries are generated with consecutive indices (the handler itself does not check this). F3 (InstallSnapshot leaves a stale cached tail) is outside this handler.',
-  technique='Coq proof (induction over the request entries) + exhaustive bounded differential enumeration of appendEntries',
+  level='Machine-checked theorems (Coq). CLUSTER LEVEL, ALL RUNS (C04_log_matching_all_runs): over the transition system of Model/ClusterLog.v - any number of servers starting from prefixes of one history, '
+        'elections (vote requests delayed, duplicated, lost), stray vote requests, restarts, TimeoutNow, leaders storing entries through dispatchLogs, AppendEntries built by setupAppendEntries for ANY nextIndex/lastIndex and '
+        'executed by their targets late, repeatedly, out of order or never, heartbeats, a store failure or crash cut at any durable operation of any handler - every reachable state satisfies Log Matching (same index and term '
+        '=> identical entries at every index both retain up to there) and terms never decrease within a log; also with takeSnapshot + compaction at any time (C04_log_matching_all_runs_with_snapshots, from states whose commit indices '
+        'are backed by a common prefix; C04_log_matching_needs_backed_commit_index shows the condition is needed). HANDLER LEVEL for EVERY follower state and request with consecutive indices: nothing at or below prev changes, removal '
+        'only from the first conflict, success => the entries sent are held and the previous entry matched (C04_append_entries, C04_success_prev_matched). '
+        'Tie: replication scripts on REAL 2-5 server clusters diffed state-by-state (full logs) against the cluster model (component 101), with the Log Matching monitor on the real logs; the bounded enumeration of '
+        'follower log x request on real servers through processRPC with failures and crash cuts. PARTIAL: InstallSnapshot and user Restore are outside the cluster system (with InstallSnapshot the statement is false on this '
+        'code: known finding F3-ii, monitored); membership changes beyond intersecting-quorum configurations are outside.',
+  note='Trusted: Coq kernel; harness stores; the cluster model over-approximates the replication goroutine (any nextIndex); request entries have consecutive indices (the handler does not check this). '
+       'Defect F10 (stale cached last log after a failed StoreLogs that followed a conflict truncation: retries refused for ever, success answered above a hole) was found by the proof effort, reproduced on the real code and repaired (fix: commit 868c55d).',
+  technique='Coq proof (invariant with a ghost chain of created entries over all cluster runs; induction over request entries) + differential correspondence on real clusters and exhaustive bounded enumeration of appendEntries',
  ),
  'C01': dict(
   level='Machine-checked theorems (Coq). COMPOSED STATEMENT (C01_election_safety): over the cluster transition system of Model/Cluster.v - any number of servers in any well-formed start state, their candidate loops and RPC handlers (the node model tied to the code), '
